@@ -25,7 +25,13 @@ def build_cases(tier, seed):
         ctrl = BUILTIN if i % 2 == 0 else hostile_stack(p=0.25, builtin=True)  # Hostile is a pure function of (seed, sim time, vehicle id)
         if i % 4 == 2:
             ctrl = {"stack": ["Dispatcher", "ChargingFleetManager", {"stateful": {"k": 3}}]}  # state handed on inside the payload
-        cases.append(trace_case("C16", i, s, prof, ctrl, steps, ["C16"], opts={"c16_twice_every": 5}))
+        opts = {"c16_twice_every": 5}
+        if i % 4 == 1:
+            # vehicle models that accept more power than some plugs give, plugs throttled by a co-simulation client between
+            # calls, many vehicles charging at once - and every single state stepped twice
+            prof.update({"custom_mech": 1.0, "custom_chargers": 1.0, "soc": [0.03, 0.05, 0.1, 0.2], "p_ice": 0.0, "n_vehicles": (6, 14), "n_stations": (2, 4), "plug_counts": [2, 3]})
+            opts = {"c16_twice_every": 1, "cosim_ops": {"every": 7, "kinds": ["scale_rate"]}}
+        cases.append(trace_case("C16", i, s, prof, ctrl, steps, ["C16"], opts=opts))
     if tier == "thorough":
         for w in ("denver_downtown/denver_demo.yaml", "denver_downtown/denver_demo_fleets.yaml"):
             cases.append(shipped_case("C16", w, 300, ["C16"], opts={"c16_twice_every": 10}, tag="b"))
@@ -38,11 +44,11 @@ main = simple_main(
     build_cases,
     "c16_step_twice",
     {
-        "quick": {"c16_states_retained": 8000, "c16_rechecks": 10000, "c16_step_twice": 1500, "c16_apply_twice": 1500},
-        "thorough": {"c16_states_retained": 200000, "c16_rechecks": 250000, "c16_step_twice": 40000, "c16_apply_twice": 40000},
+        "quick": {"c16_states_retained": 8000, "c16_rechecks": 10000, "c16_step_twice": 1500, "c16_apply_twice": 1500, "c16_what_if_branches": 1000, "c16_earlier_states_stepped_again": 1000},
+        "thorough": {"c16_states_retained": 200000, "c16_rechecks": 250000, "c16_step_twice": 40000, "c16_apply_twice": 40000, "c16_what_if_branches": 25000, "c16_earlier_states_stepped_again": 25000},
     },
     "every state of every run is retained together with its deep fingerprint (NamedTuples, dataclasses, Maps, frozensets, tuples, enums down to scalars, instance ids included); a random subset is re-fingerprinted every 20 steps and all "
     "of them at the end. Every 5th state is stepped twice through the real StepSimulation.update (built-in and state-deterministic hostile control) and the step's instruction batch is applied twice through the real apply_instructions; "
-    "results must agree modulo instance ids and the source state must be unchanged. non-trivial = at least one state stepped twice; distinct = case hash",
+    "results must agree modulo instance ids and the source state must be unchanged. Between the two steppings of a state the monitor branches as a co-simulation client would: it steps an earlier saved state again (its result must equal the one it gave the first time) and steps a what-if copy of the current state (same clock value, one station removed / made private / fully occupied). A quarter of the scenarios use vehicle models that accept more power than some plugs give, throttle plugs between calls and step every state twice. non-trivial = at least one state stepped twice; distinct = case hash",
     ["file readers, the Reporter and road-network objects are mutable by design and not part of a SimulationState (DESIGN 2)"],
 )
